@@ -124,6 +124,32 @@ func c11(r *core.Run) {
 				o.Fail(p.InstrPos(w), "a path finalises the transaction twice")
 			}
 		})
+		r.Check("D1/K8/commit-error-returned/"+name, "the error returned by Commit reaches the caller: after Commit every path to the finaliser's end stores a value derived from Commit's result into the named result", func(o *core.O) {
+			cs := core.Instrs(f, isCommit)
+			o.Site(len(cs), name)
+			for _, c := range cs {
+				fromCommit := func(v ssa.Value) bool { return core.IsResult(v, 0, core.Is(c)) }
+				storesIt := func(in ssa.Instruction) bool {
+					st, ok := in.(*ssa.Store)
+					if !ok {
+						return false
+					}
+					fv, ok := st.Addr.(*ssa.FreeVar)
+					if !ok {
+						return false
+					}
+					pt, ok := fv.Type().(*types.Pointer)
+					return ok && pt.Elem().String() == "error" && core.DependsOn(st.Val, fromCommit)
+				}
+				// paths on which Commit's error is known to be nil need no store
+				okEdges, _ := core.EdgesOf(f, core.Cmp(token.EQL, fromCommit, core.IsNil))
+				if w, ok := core.Reach(core.Q{From: []core.At{core.After(c)}, Target: core.IsExit, Blocked: storesIt, Cut: core.CutSet(okEdges)}); ok {
+					if _, isPanic := w.(*ssa.Panic); !isPanic {
+						o.Fail(p.InstrPos(c), "Commit's error can be lost: a path from Commit to the finaliser's end never stores it into the named result (a failed commit would be reported as success)")
+					}
+				}
+			}
+		})
 		r.Check("D1/K1/panic-rolled-back-and-reported/"+name, "on the recover()!=nil arm Rollback is called and the caller learns of it (non-nil error stored to the named result, or re-panic)", func(o *core.O) {
 			_, arm := core.EdgesOf(f, recoverNil)
 			o.Site(len(arm), name)
